@@ -11,6 +11,7 @@ import (
 // Registry maps property ids to checks.
 var Registry = map[string]func(*core.Run){
 	"C01": CheckC01,
+	"C02": CheckC02,
 	"C03": CheckC03,
 	"C04": CheckC04,
 	"C05": CheckC05,
@@ -39,5 +40,6 @@ func Replay(prop, path string) int {
 
 // RaceDrivers are run by the race-detector build of the harness (txv <prop> race).
 var RaceDrivers = map[string]func(){
+	"C02": raceC02,
 	"C13": raceC13,
 }
